@@ -167,8 +167,20 @@ class FilesystemBackend(StorageBackend):
         if self.exists(identifier) and not overwrite:
             raise FileExistsError(identifier)
         path = self._path(identifier)
-        with open(path, 'w') as file:
-            file.write(data)
+        # Write the complete data to a temporary file next to the target and move it into place afterwards. A failure
+        # at any point leaves either the old file or no file behind, never a truncated one. The temporary file does not
+        # end in '.json' and is therefore never listed by __iter__.
+        tmp_path = path + '.tmp'
+        try:
+            with open(tmp_path, 'w') as file:
+                file.write(data)
+            os.replace(tmp_path, path)
+        except BaseException:
+            try:
+                os.remove(tmp_path)
+            except OSError:
+                pass
+            raise
 
     def get(self, identifier: str) -> str:
         path = self._path(identifier)
@@ -234,15 +246,9 @@ class ZipFileBackend(StorageBackend):
         return os.path.join(identifier + '.json')
 
     def put(self, identifier: str, data: str, overwrite: bool=False) -> None:
-        if not self.exists(identifier):
-            with zipfile.ZipFile(self._root, mode='a', compression=self._compression_method) as myzip:
-                path = self._path(identifier)
-                myzip.writestr(path, data)
-        else:
-            if overwrite:
-                self._update(self._path(identifier), data)
-            else:
-                raise FileExistsError(identifier)
+        if self.exists(identifier) and not overwrite:
+            raise FileExistsError(identifier)
+        self._update(self._path(identifier), data)
 
     def get(self, identifier: str) -> str:
         path = self._path(identifier)
@@ -264,26 +270,33 @@ class ZipFileBackend(StorageBackend):
         self._update(self._path(identifier), None)
 
     def _update(self, filename: str, data: Optional[str]) -> None:
+        """Replace the archive by a copy in which filename holds data (or is absent if data is None).
+
+        The complete new archive is built in a temporary file in the same directory and then moved over the old one.
+        A failure at any point therefore leaves the old archive untouched."""
         # generate a temp file
         tmpfd, tmpname = tempfile.mkstemp(dir=os.path.dirname(self._root))
         os.close(tmpfd)
 
-        # create a temp copy of the archive without filename
-        with zipfile.ZipFile(self._root, 'r') as zin:
-            with zipfile.ZipFile(tmpname, 'w') as zout:
-                zout.comment = zin.comment # preserve the comment
-                for item in zin.infolist():
-                    if item.filename != filename:
-                        zout.writestr(item, zin.read(item.filename))
+        try:
+            # create a temp copy of the archive without filename and add filename with its new data
+            with zipfile.ZipFile(self._root, 'r') as zin:
+                with zipfile.ZipFile(tmpname, 'w', compression=self._compression_method) as zout:
+                    zout.comment = zin.comment # preserve the comment
+                    for item in zin.infolist():
+                        if item.filename != filename:
+                            zout.writestr(item, zin.read(item.filename))
+                    if data is not None:
+                        zout.writestr(filename, data)
 
-        # replace with the temp archive
-        os.remove(self._root)
-        os.rename(tmpname, self._root)
-
-        # now add filename with its new data
-        if data is not None:
-            with zipfile.ZipFile(self._root, mode='a', compression=self._compression_method) as zf:
-                zf.writestr(filename, data)
+            # replace with the temp archive
+            os.replace(tmpname, self._root)
+        except BaseException:
+            try:
+                os.remove(tmpname)
+            except OSError:
+                pass
+            raise
 
     def __iter__(self) -> Iterator[str]:
         with zipfile.ZipFile(self._root, 'r') as myzip:
